@@ -132,6 +132,7 @@ func C03(r *core.Run) {
 	leniency(r)
 	queryReuse(r)
 	scalarsStoredVerbatim(r)
+	kindSpellings(r)
 	r.Tick("rest")
 }
 
@@ -325,20 +326,69 @@ func bitSizes(r *core.Run, rel, fn string) {
 	width := map[string]int{"ValueOfInt32": 32, "ValueOfUint32": 32, "ValueOfInt64": 64, "ValueOfUint64": 64, "ValueOfFloat32": 32, "ValueOfFloat64": 64}
 	parsed := map[string]bool{}
 	n := 0
-	core.InspectTree(pk, fd.Body, func(nd ast.Node) bool {
-		cc, ok := nd.(*ast.CaseClause)
-		if !ok {
-			return true
+	// an arm is the code selected for one kind or format: a clause of a switch, or the body of an
+	// `if` of a chain that compares against constants (the same dispatch written as if / else if)
+	type arm struct {
+		node ast.Node
+		cc   *ast.CaseClause
+		body []ast.Stmt
+		init ast.Stmt
+		root ast.Node
+	}
+	armOf := func(root ast.Node, at ast.Node) *arm {
+		path := core.PathTo(root, at)
+		for i := len(path) - 1; i >= 0; i-- {
+			switch x := path[i].(type) {
+			case *ast.CaseClause:
+				return &arm{node: x, cc: x, body: x.Body, root: root}
+			case *ast.IfStmt:
+				if i+1 < len(path) && path[i+1] == ast.Node(x.Body) && constDispatch(info, x.Cond) {
+					return &arm{node: x, body: x.Body.List, init: x.Init, root: root}
+				}
+			}
 		}
-		// constructors directly in this clause (not nested clauses)
+		return nil
+	}
+	var arms []*arm
+	seenArm := map[ast.Node]bool{}
+	for _, root := range core.TreeOf(pk, fd.Body, 3) {
+		ast.Inspect(root, func(nd ast.Node) bool {
+			c, ok := nd.(*ast.CallExpr)
+			if !ok {
+				return true
+			}
+			name := core.CalleeName(info, c)
+			if !strings.HasPrefix(name, "google.golang.org/protobuf/reflect/protoreflect.ValueOf") {
+				return true
+			}
+			if _, ok := width[name[strings.LastIndex(name, ".")+1:]]; !ok {
+				return true
+			}
+			if a := armOf(root, c); a != nil && !seenArm[a.node] {
+				seenArm[a.node] = true
+				arms = append(arms, a)
+			}
+			return true
+		})
+	}
+	for _, a := range arms {
+		cc := a.cc
+		// constructors directly in this arm (not in nested arms)
 		var ctor *ast.CallExpr
 		var ctorName string
 		var parseBits int64 = -1
 		var parsePos token.Pos
 		parseName := ""
-		for _, st := range cc.Body {
+		stmts := a.body
+		if a.init != nil {
+			stmts = append([]ast.Stmt{a.init}, stmts...)
+		}
+		for _, st := range stmts {
 			ast.Inspect(st, func(x ast.Node) bool {
 				if _, nested := x.(*ast.CaseClause); nested {
+					return false
+				}
+				if ifs, nested := x.(*ast.IfStmt); nested && constDispatch(info, ifs.Cond) {
 					return false
 				}
 				c, ok := x.(*ast.CallExpr)
@@ -370,9 +420,9 @@ func bitSizes(r *core.Run, rel, fn string) {
 			})
 		}
 		if ctor == nil {
-			return true
+			continue
 		}
-		label := clauseLabel(info, fd, cc)
+		label := armLabel(info, a.root, a.node)
 		if parseBits >= 0 && !strings.Contains(ctorName, "Float") {
 			n++
 			o := r.Add("R-FLOW/F2", fmt.Sprintf("%s.%s | %s | parse bits", rel, fn, label), parsePos, fmt.Sprintf("parse with %d bits feeding %s", parseBits, ctorName))
@@ -388,10 +438,10 @@ func bitSizes(r *core.Run, rel, fn string) {
 			} else {
 				o.Fail("parsed with %d bits but stored with %s: out-of-range values are silently truncated", parseBits, ctorName)
 			}
-			return true
+			continue
 		}
 		// narrowing from int64 (json.Number path)
-		if len(cc.List) == 1 && core.TypeStr(info.TypeOf(cc.List[0])) == "int64" && (width[ctorName] == 32 || strings.Contains(ctorName, "Uint")) && !strings.Contains(ctorName, "Float") {
+		if cc != nil && len(cc.List) == 1 && core.TypeStr(info.TypeOf(cc.List[0])) == "int64" && (width[ctorName] == 32 || strings.Contains(ctorName, "Uint")) && !strings.Contains(ctorName, "Float") {
 			n++
 			o := r.Add("R-FLOW/F2", fmt.Sprintf("%s.%s | %s | int64 range", rel, fn, label), ctor.Pos(), "int64 narrowed into "+ctorName)
 			src := ""
@@ -421,8 +471,7 @@ func bitSizes(r *core.Run, rel, fn string) {
 				o.Fail("no range test against %v before the conversion: out-of-range numbers wrap silently", missing)
 			}
 		}
-		return true
-	})
+	}
 	r.Analysed["bit_size_sites_"+fn] = n
 	// every integer width/signedness has a text parse of its own: the
 	// encoder writes 64-bit integers as quoted strings, and a parse shared
@@ -435,6 +484,47 @@ func bitSizes(r *core.Run, rel, fn string) {
 			o.Fail("no case clause parses text with the signedness and width of %s: quoted integers of that kind are either rejected or go through another kind's parse", ctor)
 		}
 	}
+}
+
+// constDispatch: the condition compares something against constants only (X == C, or several
+// joined by ||): one arm of a dispatch over kinds or formats.
+func constDispatch(info *types.Info, cond ast.Expr) bool {
+	cond = core.Unparen(cond)
+	if b, ok := cond.(*ast.BinaryExpr); ok && b.Op == token.LOR {
+		return constDispatch(info, b.X) && constDispatch(info, b.Y)
+	}
+	_, _, ok := core.EqConst(info, cond)
+	return ok
+}
+
+// armLabel names an arm by the dispatch values on the way to it.
+func armLabel(info *types.Info, root ast.Node, node ast.Node) string {
+	var parts []string
+	last := func(e ast.Expr) string {
+		s := core.ExprStr(e)
+		return s[strings.LastIndex(s, ".")+1:]
+	}
+	for _, n := range core.PathTo(root, node) {
+		switch x := n.(type) {
+		case *ast.CaseClause:
+			if len(x.List) > 0 {
+				parts = append(parts, last(x.List[0]))
+			}
+		case *ast.IfStmt:
+			c := core.Unparen(x.Cond)
+			for {
+				b, ok := c.(*ast.BinaryExpr)
+				if !ok || b.Op != token.LOR {
+					break
+				}
+				c = core.Unparen(b.X)
+			}
+			if _, k, ok := core.EqConst(info, c); ok {
+				parts = append(parts, last(k))
+			}
+		}
+	}
+	return strings.Join(parts, "/")
 }
 
 func clauseLabel(info *types.Info, fd *ast.FuncDecl, cc *ast.CaseClause) string {
